@@ -3,6 +3,7 @@ package main
 // Models for time, math/rand, crypto/rand (arbitrary values), misc.
 
 import (
+	"unicode"
 	"go/types"
 	"math"
 )
@@ -202,5 +203,28 @@ func init() {
 		"math.IsInf":           func(fr *frame, a []value) value { return math.IsInf(a[0].(float64), int(asInt64(a[1]))) },
 	} {
 		externals[k] = v
+	}
+}
+
+// unicode predicates: the package's range tables are not initialised in the
+// interpreter; the predicates are answered natively for concrete runes and as
+// one Bool term over the fixed code-point sets for symbolic ones.
+func init() {
+	spaces := [][2]uint64{{0x09, 0x0d}, {0x20, 0x20}, {0x85, 0x85}, {0xa0, 0xa0}, {0x1680, 0x1680},
+		{0x2000, 0x200a}, {0x2028, 0x2029}, {0x202f, 0x202f}, {0x205f, 0x205f}, {0x3000, 0x3000}}
+	inRanges := func(fr *frame, r value, ranges [][2]uint64, native func(rune) bool) value {
+		if t, ok := r.(*Term); ok {
+			tt := fr.p.tt
+			acc := tt.False
+			for _, rg := range ranges {
+				c := tt.And(tt.Cmp(OpUle, tt.BV(rg[0], t.Width()), t), tt.Cmp(OpUle, t, tt.BV(rg[1], t.Width())))
+				acc = tt.Or(acc, c)
+			}
+			return fr.p.fromBoolTerm(acc)
+		}
+		return native(rune(asInt64(r)))
+	}
+	externals["unicode.IsSpace"] = func(fr *frame, a []value) value {
+		return inRanges(fr, a[0], spaces, unicode.IsSpace)
 	}
 }
